@@ -295,7 +295,7 @@ def system_norm(system, p=2, tol=1e-6, print_warning=True, method=None):
             # --------------------
             def _Hamilton_matrix(gamma):
                 """Constructs Hamiltonian matrix. For internal use."""
-                R = Ip*gamma**2 - D.T@D
+                R = Im*gamma**2 - D.T@D
                 invR = la.inv(R)
                 return np.block([
                     [A+B@invR@D.T@C, B@invR@B.T],
@@ -303,7 +303,8 @@ def system_norm(system, p=2, tol=1e-6, print_warning=True, method=None):
 
             gaml = la.norm(D,ord=2)    # Lower bound
             gamu = max(1.0, 2.0*gaml)  # Candidate upper bound
-            Ip = np.eye(len(D))
+            Ip = np.eye(D.shape[0])    # identity of output dimension
+            Im = np.eye(D.shape[1])    # identity of input dimension
 
             while any(np.isclose(
                     la.eigvals(_Hamilton_matrix(gamu)).real, 0.0)):
